@@ -3,6 +3,6 @@ CONSTANTS
   CompileLevels <- AllCompile
   RunLevels <- AllRun
   Obs <- ObsEmit
-INVARIANTS TypeOK NoOutputWhenSilent ArgsNotEvaluatedWhenGatedOff GateExact GateMonotone CompiledOut AssertStops RequireNeverFatal HoldingIsQuiet
+INVARIANTS TypeOK NoOutputWhenSilent ArgsNotEvaluatedWhenGatedOff GateExact GateMonotone CompiledOut AssertStops RequireNeverFatal HoldingIsQuiet ContextLaw
 PROPERTY BuildConstant
 CHECK_DEADLOCK FALSE
